@@ -19,6 +19,7 @@ import BioCantor.Proofs.TxMain
 import BioCantor.Proofs.TxInterval
 import BioCantor.Proofs.TxIntrons
 import BioCantor.Proofs.TxChunkUtr
+set_option autoImplicit false   -- an unresolved name in a statement must be an error, never a bound variable
 namespace BioCantor.Props.C06
 open BioCantor BioCantor.Spec BioCantor.Model BioCantor.Model.Transcript BioCantor.Proofs
 
